@@ -149,14 +149,30 @@ def sentinels(rep, rule="L6"):
         wr, rd = f.func(fam + "FrNative"), f.func(fam + "ToNative")
         # --- the writer's sentinels
         nan_s = zero_s = None
+        wpar = common.parents(wr["body"])
         for i in walk(wr["body"]):
             if i["k"] != "IfStmt":
                 continue
-            asm = [c for c in calls(i["c"][1], fam + "Assemble")]
+            # the assemble call directly under this test (not under a nested one)
+            asm = []
+            for c in calls(i["c"][1], fam + "Assemble"):
+                cur, nested = c, False
+                while cur["id"] in wpar and wpar[cur["id"]] is not i:
+                    cur = wpar[cur["id"]]
+                    if cur["k"] == "IfStmt":
+                        nested = True
+                if not nested:
+                    asm.append(c)
             if not asm:
                 continue
             k = const_value(asm[0]["c"][3]) if len(asm[0]["c"]) > 3 else None
             conj = _conj(i["c"][0])
+            cur = i
+            while cur["id"] in wpar:                      # conditions of enclosing tests whose then-branch we are in
+                p_ = wpar[cur["id"]]
+                if p_["k"] == "IfStmt" and any(y is cur for y in walk(p_["c"][1])):
+                    conj = conj + _conj(p_["c"][0])
+                cur = p_
             tests_expon = [t for t in conj if t is not None and _eq_const(t, "expon") is not None]
             nofrac = any(t is not None and t["k"] == "UnaryOperator" and t["op"] == "!" and _is_var(t["c"][0], "hasFrac") for t in conj)
             hasfrac = any(_is_var(t, "hasFrac") for t in conj)
